@@ -359,4 +359,95 @@ class C10f(Obligation):
             ctx.check(made[0][1] == level, 'with the relative level of the import statement')
 
 
-OBLIGATIONS = [C10a, C10b, C10c, C10d, C10e, C10f]
+import ast  # noqa: E402
+import io  # noqa: E402
+import tokenize  # noqa: E402
+
+import jedi  # noqa: E402
+
+IMPORT_CORPUS = """from . import x
+from .. import up as alias
+from .m import y
+from a.b import c, d as e
+import p.q
+import r.s as t
+from ... import (u, v)
+from k import w
+"""
+
+
+def import_expectations(src):
+    """{(line, col): (from_import_name, import_path, level)} for every identifier token of an import statement that
+    names a module part or an imported name (the binding alias after `as` resolves like the name it renames)"""
+    tree = ast.parse(src)
+    toks = [t for t in tokenize.generate_tokens(io.StringIO(src).readline) if t.type == tokenize.NAME]
+    out = {}
+    for node in tree.body:
+        line_toks = [t for t in toks if t.start[0] == node.lineno and t.string not in ('from', 'import', 'as')]
+        if isinstance(node, ast.ImportFrom):
+            parts = tuple(node.module.split('.')) if node.module else ()
+            for i, part in enumerate(parts):
+                t = line_toks[i]
+                out[t.start] = (None, parts[:i + 1], node.level)
+            rest = line_toks[len(parts):]
+            k = 0
+            for al in node.names:
+                out[rest[k].start] = (al.name, parts, node.level)
+                k += 1
+                if al.asname:
+                    out[rest[k].start] = (al.name, parts, node.level)
+                    k += 1
+        else:
+            k = 0
+            for al in node.names:
+                parts = tuple(al.name.split('.'))
+                for i in range(len(parts)):
+                    out[line_toks[k].start] = (None, parts[:i + 1], 0)
+                    k += 1
+                if al.asname:
+                    out[line_toks[k].start] = (None, parts, 0)
+                    k += 1
+    return out
+
+
+class C10g(Obligation):
+    id = 'C10.g'
+    title = 'from-imports: the imported name is looked up as an ATTRIBUTE of the package first (also for "from . import x"), with the statement\'s dots as level'
+    pattern = 'P4 concrete tree x symbolic cursor; reference from CPython ast; Importer is a recording stub'
+    interpret_modules = ('jedi', 'parso', 'obligations')
+    loop_bound = 400
+    max_paths = 3000
+    assumptions = (
+        'a corpus of import statements (relative with 1-3 dots, with and without module part, aliases, parenthesised '
+        'lists, plain dotted imports); the cursor is symbolic and resolved by the interpreted get_leaf_for_position; '
+        'Importer is a stub recording (path, level) - what _prepare_infer_import decides is which part is the package '
+        'and which the attribute',
+    )
+
+    def scenario(self, ctx, cfg):
+        src = IMPORT_CORPUS
+        script = jedi.Script(src)
+        exp = import_expectations(src)
+        line = ctx.int('line')
+        column = ctx.int('column')
+        ctx.assume(ctx.Or(*[ctx.And(line == l, c < column, column <= c + 1) for (l, c) in exp]))
+        leaf = ctx.run(script._module_node.get_leaf_for_position, (line, column))
+        if leaf is None or leaf.start_pos not in exp:
+            ctx.check(False, 'the position resolves to the import token')
+            return
+        made = []
+        ctx.patch(jimports, 'Importer', lambda state, path, module_context, level=0:
+                  Obj(follow=lambda: made.append((tuple(getattr(n, 'value', n) for n in path), level)) or 'VALUES'))
+        ctx.force(jimports._prepare_infer_import)
+        out = ctx.call(jimports._prepare_infer_import, Obj(inference_state=None), leaf)
+        ctx.check(out.exc is None, 'never raises')
+        if out.exc is not None:
+            return
+        from_name, path, level, values = out.value
+        got = (getattr(from_name, 'value', from_name), tuple(getattr(n, 'value', n) for n in path), level)
+        ctx.observe((leaf.value, leaf.start_pos, got), 'import')
+        ctx.check(got == exp[leaf.start_pos], 'package part, attribute name and level are those of the statement')
+        ctx.check(made == [(got[1], got[2])] and values == 'VALUES', 'exactly the package part is imported, with the level of the statement')
+
+
+OBLIGATIONS = [C10a, C10b, C10c, C10d, C10e, C10f, C10g]
